@@ -141,6 +141,11 @@ def _rand_spec(rng: random.Random, *, n_ops=None, tag_mode="any", asynciter_sche
             if rng.random() < 0.3:
                 p["description"] = rng.choice(["the value", "yield to others", "async def x(", "a: b", "ends with colon:"])
             params.append(p)
+        if rng.random() < 0.2:
+            # header parameters named like HTTP's own headers are ordinary parameters of the generated method
+            hn = rng.choice(["Accept", "Authorization", "accept", "If-None-Match"])   # not Content-Type: observation F63
+            if not any(q["name"].lower() == hn.lower() for q in params):
+                params.append({"name": hn, "in": "header", "schema": {"type": "string"}, **({"required": True} if rng.random() < 0.3 else {})})
         op: dict = {"operationId": opid, "parameters": params}
         if rng.random() < 0.5:
             op["summary"] = rng.choice(["Do it", "yield the floor", "def f(x):", "Returns AsyncIterator of things"])
@@ -186,6 +191,10 @@ def _rand_spec(rng: random.Random, *, n_ops=None, tag_mode="any", asynciter_sche
         elif resp == "ndjson":
             r200["content"] = {"application/x-ndjson": {"schema": ref}}
         op["responses"] = {("204" if resp == "none" else "200"): r200}
+        if resp in ("ref", "array", "prim") and rng.random() < 0.25:
+            # a SECONDARY 2xx response that streams next to a primary one that does not: client, Protocol and mock follow the primary
+            op["responses"][rng.choice(["202", "206"])] = {"description": "partial", "content": rng.choice([
+                {"application/octet-stream": {"schema": {"type": "string", "format": "binary"}}}, {"text/event-stream": {"schema": {"type": "string"}}}])}
         if rng.random() < 0.3:
             op["responses"]["404"] = {"description": "nf"}
         method = rng.choice(["get", "post", "put", "patch", "delete"]) if "requestBody" in op else rng.choice(["get", "delete"])
@@ -250,8 +259,11 @@ def _impl_proto(text: str) -> list[str] | str:
         def generate(self, op, context):
             return text
 
-    with mock.patch.object(ev, "EndpointMethodGenerator", Fake):
-        code = ev.EndpointVisitor({}).generate_endpoint_protocol("T", [object()], _DummyCtx())
+    try:
+        with mock.patch.object(ev, "EndpointMethodGenerator", Fake):
+            code = ev.EndpointVisitor({}).generate_endpoint_protocol("T", [object()], _DummyCtx())
+    except Exception as e:  # a DISAGREEMENT, not a harness failure
+        return f"<raised {type(e).__name__}: {str(e)[:120]}>"
     lines = code.split("\n")
     head, rest = lines[:4], lines[4:]
     if head[0] != "@runtime_checkable" or not head[1].startswith("class TClientProtocol"):
@@ -264,7 +276,12 @@ def _impl_proto(text: str) -> list[str] | str:
 def _impl_mock(text: str, opid: str, tags: list[str]) -> str:
     from pyopenapi_gen.visit.endpoint.generators import mock_generator as mg
     g = mg.MockGenerator.__new__(mg.MockGenerator)
-    return g._transform_to_mock(text, types.SimpleNamespace(operation_id=opid, tags=list(tags)))
+    op = types.SimpleNamespace(operation_id=opid, tags=list(tags), responses=[], parameters=[], request_body=None, summary=None, description=None,
+                               path="/x", method=types.SimpleNamespace(value="get"))
+    try:
+        return g._transform_to_mock(text, op)
+    except Exception as e:  # the code under test raised on an input the model handles: a DISAGREEMENT, not a harness failure
+        return f"<raised {type(e).__name__}: {str(e)[:120]}>"
 
 
 def _impl_sig(text: str):
@@ -918,7 +935,7 @@ def _evaluate(doc: dict, root: str, scratch: str) -> tuple[int, list[dict]]:
                     fail("protocol-signature", {"module": m, "method": name, "proto": p["sig"], "client": c["sig"]}, "equal")
                 want_nat = "plain" if c["nature"] == "asyncgen" else c["nature"]   # documented convention for async generators
                 if p["nature"] != want_nat:
-                    fail("protocol-async-dropped", {"module": m, "method": name, "proto": p["nature"], "client": c["nature"]}, want_nat)
+                    fail("protocol-async-dropped" if ("AsyncIterator" in str(c["sig"]) and c["nature"] == "coroutine") else "protocol-nature-differs", {"module": m, "method": name, "proto": p["nature"], "client": c["nature"]}, want_nat)
         if not info["mock_module"] or info.get("mock") is None:
             n += 1
             if not any("mock" in e["module"] for e in import_errs) or not info["mock_module"]:
@@ -938,7 +955,9 @@ def _evaluate(doc: dict, root: str, scratch: str) -> tuple[int, list[dict]]:
             if k["sig"] != c["sig"]:
                 fail("mock-signature", {"module": m, "method": name, "mock": k["sig"], "client": c["sig"]}, "equal")
             if k["nature"] != c["nature"]:
-                fail("mock-asyncgen-nature", {"module": m, "method": name, "mock": k["nature"], "client": c["nature"]}, "equal")
+                # F47 is recorded for signatures that MENTION `AsyncIterator` in a type NAME (AsyncIteratorResult) only
+                f47 = "AsyncIterator" in str(c["sig"]) and c["nature"] == "coroutine"
+                fail("mock-asyncgen-nature" if f47 else "mock-nature-differs", {"module": m, "method": name, "mock": k["nature"], "client": c["nature"]}, "equal")
             elif not k["call"].startswith("NotImplementedError:"):
                 fail("mock-does-not-raise", {"module": m, "method": name, "call": k["call"]}, "NotImplementedError")
         for name in info["mock"]:
